@@ -173,6 +173,18 @@ def run_histories(ctx: Ctx):
                         ctx.violate('C09:allocation-untruthful' if cost_mode in ('constant', 'small', 'nondyadic') else 'C09:allocation-untruthful-varying-cost',
                                     f'fidelity {alpha}: allocation reports {got_n.get(alpha)} evaluations / cost {got_c.get(alpha)}, actually '
                                     f'{real_n[alpha]} evaluations / cost {real_c[alpha]}', case); break
+        # ---- allocation "up to iteration k" versus the calls made in the first k steps
+        if cost_mode in ('constant', 'small', 'nondyadic') and len(system.train_history) == len(calls_per_batch):
+            for k in range(1, len(calls_per_batch) + 1):
+                want_n = sum(len(b) for b in calls_per_batch[:k]); want_c = sum(c for b in calls_per_batch[:k] for _, _, c in b)
+                try:
+                    ca, ea, cc, ec = system.get_allocation(k)
+                except Exception as e:
+                    ctx.violate('C09:get_allocation-raises', f'get_allocation({k}): {type(e).__name__}: {e}', case); break
+                got_n = sum(ea.get(comp.name, {}).values()); got_c = sum(ca.get(comp.name, {}).values())
+                if abs(got_n - want_n) > 1e-9 or abs(got_c - want_c) > 1e-9 * (1 + want_c) or len(ec) != k or abs(float(ec[-1]) - want_n) > 1e-9:
+                    ctx.violate('C09:allocation-up-to-iteration-untruthful', f'get_allocation({k}) reports {got_n} evaluations / cost {got_c} over {len(ec)} '
+                                f'iterations; the first {k} of {len(calls_per_batch)} steps made {want_n} evaluations / cost {want_c}', case); break
         # ---- correspondence: which (fidelity, coordinate) pairs are evaluated, in which order
         def coord_of(x):
             out = []
